@@ -248,16 +248,18 @@ def _compare_assembled(ctx, got, S, Cd, bc, dv, axes, has_const, kind):
     if not np.all(np.isfinite(G)):
         ctx.bad('scatter_identity', 'nonfinite', axes)
         return G
-    if bc is None:
-        exp = [S + Cd]
-    else:
+    def expected(Sm):
+        if bc is None:
+            return [Sm + Cd]
         d = 0.0 if dv is None else dv
-        exp = [fe.apply_bc(S, bc, d) + Cd]
+        ex = [fe.apply_bc(Sm, bc, d) + Cd]
         if has_const:
-            exp.append(fe.apply_bc(S + Cd, bc, d))
+            ex.append(fe.apply_bc(Sm + Cd, bc, d))
         if dv is None and len(bc):
-            for Ex in exp:  # default diagonal: whatever finite value the module chose is taken over
+            for Ex in ex:  # default diagonal: whatever finite value the module chose is taken over
                 Ex[bc, bc] = G[bc, bc]
+        return ex
+    exp = expected(S)
     scale = maxabs(S, Cd, 0.0 if dv is None else dv)
     errs = [alg_err(G, Ex, scale) for Ex in exp]
     if any(e <= b for e, b in errs):
@@ -276,8 +278,7 @@ def _compare_assembled(ctx, got, S, Cd, bc, dv, axes, has_const, kind):
             where = 'bc_diagonal' if not np.any(mism & ~dmask) else 'bc_rows_cols'
     det = {}
     if where == 'free_block':  # a transposed scatter is the classic mistake: say so in the signature
-        if alg_err(G, (fe.apply_bc(S.T, bc, 0.0 if dv is None else dv) if bc is not None else S.T) + Cd, scale)[0] \
-                <= errs[0][1] and not np.allclose(S, S.T):
+        if not np.allclose(S, S.T) and any(alg_err(G, Ex, scale)[0] <= errs[0][1] for Ex in expected(S.T)):
             where = 'transposed'
     ij = np.argwhere(mism)[0]
     det.update(first_mismatch=[int(ij[0]), int(ij[1])], got=float(np.real(G[ij[0], ij[1]])),
@@ -374,6 +375,13 @@ def _options_sweep(ctx, pym, cls, dom, grid, ndof, elmat_of, base_kw, tab, bcs, 
     return Ke
 
 
+def _sigval(k, v):
+    # which of the non-empty proper bc sets is used is incidental
+    if k == 'bc' and v in ('single', 'edge', 'scattered'):
+        return 'some'
+    return str(v)
+
+
 def _summarise(ctx, kind, axes_values):
     """One violation per (check, where): the option values that separate failing from passing sub-points go into the
     signature, everything else (grid, numbers) does not."""
@@ -382,14 +390,15 @@ def _summarise(ctx, kind, axes_values):
         sig = {'check': check, 'kind': kind, 'where': where}
         keys = set().union(*[set(a.keys()) for a, _ in items])
         for k in sorted(keys):
-            vals = {str(a.get(k)) for a, _ in items}
+            vals = {_sigval(k, a.get(k)) for a, _ in items}
             allv = axes_values.get(k)
-            if allv is not None and len(allv) > 1 and not set(map(str, allv)) <= vals:
-                sig[k] = '+'.join(sorted(vals))
-            elif allv is None:
-                r = {str(a.get(k)) for a, _ in items}
-                if len(r) == 1:
-                    sig[k] = r.pop()
+            if allv is not None and len(allv) > 1:
+                # x vectors with zero entries make tiny grids pass trivially: they never count as "passing" values
+                need = {_sigval(k, v) for v in allv if not (k == 'x' and v in ('zeros', 'allzero'))}
+                if not need <= vals:
+                    sig[k] = '+'.join(sorted(vals))
+            elif len(vals) == 1 and k not in ('mat', 'diag'):
+                sig[k] = vals.pop()
         axes0, det0 = items[0]
         narrowed = dict(ctx.case)
         narrowed['only'] = {k: v for k, v in axes0.items() if k in ('bc', 'diag', 'const', 'mtype', 'x', 'mat', 'phase')}
